@@ -16,7 +16,7 @@ RULE = ('cases = role x state x event x primitive variant x ARTIM-prior x route 
         'running loop); every one of the 247 cells is evaluated for both roles; non-trivial = the '
         'cell is one of the 123 defined cells; distinct = distinct (role, state, event, variant, '
         'timer-prior, route)'
-        '; every cell with bytes of a following PDU in the receive buffer; every writing cell also with a transport failing at the write; Sta13 also reached through AA-1/AA-7/AA-8')
+        '; every cell with bytes of a following PDU in the receive buffer; every writing cell also with a transport failing at the write; Sta13 also reached through AA-1/AA-7/AA-8; route slow-transport: (Sta6,Evt9) with a peer that does not read for 5.5-61 s')
 ASSUMPTIONS = ['R-fsm transcribed from PS3.8 Table 9-10 (123 defined cells, asserted)',
                'observation through current_state, timer._start_time, dul_socket, to_service_user '
                'and the bytes that reached the peer endpoint',
@@ -138,6 +138,13 @@ def cases(tier, seed):      # noqa: F811
     for i in range(200 if tier == 'quick' else 4000):
         yield dict(role='acceptor' if i % 2 else 'requestor', state='-', event='-', var='-',
                    timer='asis', route='simultaneous', seed=seed * 100003 + i)
+    # cell (Sta6, Evt9) DT-1 on a transport that takes the data slowly (the peer does not read
+    # for a while): the action is still "send the P-DATA-TF PDU, stay in Sta6" in both roles
+    for role in ('acceptor', 'requestor'):
+        for stall in (5.5, 8.0, 20.0, 61.0):
+            for cap in (512, 2048):
+                yield dict(role=role, state='Sta6', event='Evt9', var='-', timer='asis',
+                           route='slow-transport', stall=stall, cap=cap, seed=seed)
 
 
 def _lib_pdu(raw):
@@ -199,6 +206,14 @@ def _establish(rig, role, state, route):
 
 
 def run_case(case):
+    if case['route'] == 'slow-transport':
+        from . import c05
+        r = c05.run_stalled_peer(dict(role=case['role'], mode='stalled-peer', stall=case['stall'],
+                                      cap=case['cap'], n=16, seed='c04st/%s' % case['seed']))
+        for v_ in r.get('violations', []):
+            v_['sig'] = 'C04 cell=(Sta6,Evt9) slow-transport ' + v_['sig'].replace('C05 ', '')
+        r['sets'] = {'cells_evaluated': ['Sta6,Evt9']}
+        return r
     if case['route'] == 'simultaneous':
         from . import c05
         inner = case.get('inner') or dict(role=case['role'], walk=8, mode='concurrent',
